@@ -51,9 +51,20 @@ Definition fetch_pushdown {A} (mask : option (list bool)) (lim : option Z) (rows
   | _, _ => rows
   end.
 
-Definition exec_order_limit_with (srt : sorter) (mask : option (list bool)) (c : sort_cfg) (lim : option Z)
-    (rows : list row) : res (list row) :=
-  order_limit_with srt c lim (fetch_pushdown mask lim rows).
+(* queryPlan.limitToPushDown (repair e34ecad): the limit is handed to the driver only if, in addition, there is no
+   ORDER BY and every retrieved triple becomes exactly one row (no predicate / object id filter, no anchor binding,
+   no repeated binding): the mask is all true.  [guarded] = false is the code as found. *)
+Definition pushdown_mask (guarded : bool) (c : sort_cfg) (mask : option (list bool)) : option (list bool) :=
+  if guarded then
+    match c, mask with
+    | None, Some m | Some [], Some m => if forallb (fun b => b) m then Some m else None
+    | _, _ => None
+    end
+  else mask.
+
+Definition exec_order_limit_with (srt : sorter) (guarded : bool) (mask : option (list bool)) (c : sort_cfg)
+    (lim : option Z) (rows : list row) : res (list row) :=
+  order_limit_with srt c lim (fetch_pushdown (pushdown_mask guarded c mask) lim rows).
 
 (* orderByBindingsChecker: a key may be repeated with the same direction; then the SortConfig is REBUILT by ranging
    over the map of seen bindings - in Go's unspecified map order, modelled by the argument [perm]. *)
